@@ -46,6 +46,12 @@ inductive Failure where
   /-- main.rs 716-724: one input file and a sample name comes back after another sample was seen
   (`Single-file PanSN mode requires samples to be sorted by name`) -/
   | unsortedSingleFile
+  /-- two pushed records with the same (sample, contig name): `register_sample_contig` returns
+  `Ok(false)` for the second and `push` refuses it (`Duplicate contig name … in sample …`), so
+  create fails. Before repair D13 (/repo 3f11240) `push` ignored the `Ok(false)`, queued the contig
+  anyway, and its segments were placed over those of the first record under the one catalogue
+  entry: create exited 0 with a chimeric or missing contig. -/
+  | duplicateContig
 deriving Repr, DecidableEq
 
 /-- The input is outside what the composed model describes. -/
@@ -56,13 +62,6 @@ inductive Outside where
   substitutes the first word of the contig name (`Details.storedName`) while the segments are
   registered under the original name -/
   | emptySampleName
-  /-- two pushed records with the same (sample, contig name): `register_sample_contig` returns
-  `Ok(false)` for the second, `push` ignores that and queues the contig anyway, and its segments
-  are then placed over those of the first under the one catalogue entry. `writeArchive` takes a
-  list of distinct contigs; what the real compressor stores here is not a function of it.
-  (C++ AGC skips the second record with a message; ragc neither fails nor keeps both — see the
-  remark at the end of `Props/C16.lean`.) -/
-  | duplicateContig
   /-- `Writer.writeArchive = none`: `min_match_len < 4`, a part / stream size outside `u64`/`u32`,
   a file longer than `i64::MAX`, or decisions that do not name the pieces -/
   | writer
@@ -127,7 +126,7 @@ def createSamples (files : List InFile) : Except Stop (List Ragc.Writer.Sample) 
     if files.length = 1 ∧ sortedLoop none [] (rs.map (·.1)) = false then
       .error (.error .unsortedSingleFile)
     else if rs.any (fun r => r.1 = []) then .error (.outside .emptySampleName)
-    else if ¬ (rs.map (fun r => (r.1, r.2.1))).Nodup then .error (.outside .duplicateContig)
+    else if ¬ (rs.map (fun r => (r.1, r.2.1))).Nodup then .error (.error .duplicateContig)
     else .ok (groupRecords rs)
 
 /-- `ragc create -o OUT files…`: the archive bytes, or why there are none. -/
